@@ -1305,9 +1305,10 @@ func c01R7(p *Prog, r *Report) {
 	n := 0
 	// sourceIndex: the index into the parameter/field slice `base` that expression e (an element of it) denotes
 	type src struct {
-		base string
-		idx  linForm
-		ok   bool
+		base     string
+		idx      linForm
+		ok       bool
+		baseExpr ast.Expr
 	}
 	var elemOf func(fc *FuncCtx, e ast.Expr, depth int) src
 	elemOf = func(fc *FuncCtx, e ast.Expr, depth int) src {
@@ -1324,9 +1325,9 @@ func c01R7(p *Prog, r *Report) {
 				if b.Low != nil {
 					idx = idx.add(linOf(p, fc, b.Low), 1)
 				}
-				return src{normExpr(p, fc, b.X), idx, true}
+				return src{normExpr(p, fc, b.X), idx, true, b.X}
 			default:
-				return src{normExpr(p, fc, x.X), idx, true}
+				return src{normExpr(p, fc, x.X), idx, true, x.X}
 			}
 		case *ast.Ident:
 			o := objOf(info, x)
@@ -1352,9 +1353,9 @@ func c01R7(p *Prog, r *Report) {
 					if b.Low != nil {
 						idx = idx.add(linOf(p, fc, b.Low), 1)
 					}
-					return src{normExpr(p, fc, b.X), idx, true}
+					return src{normExpr(p, fc, b.X), idx, true, b.X}
 				default:
-					return src{normExpr(p, fc, rs.X), idx, true}
+					return src{normExpr(p, fc, rs.X), idx, true, rs.X}
 				}
 			}
 			if rhs, _, _, sole := fc.SoleDefRHS(o); sole {
@@ -1378,6 +1379,22 @@ func c01R7(p *Prog, r *Report) {
 			}
 			if fn := Callee(info, x); fn != nil && fn.Pkg() != nil && strings.HasSuffix(fn.Pkg().Path(), "blake3") && len(x.Args) == 1 {
 				return x.Args[0]
+			}
+			// a helper of the module that turns one key into its hash (byte array result)
+			if fn := Callee(info, x); fn != nil && fn.Pkg() != nil && strings.HasPrefix(fn.Pkg().Path(), modPath) && len(x.Args) == 1 {
+				if sig, ok := fn.Type().(*types.Signature); ok && sig.Results().Len() == 1 {
+					if ar, isAr := sig.Results().At(0).Type().Underlying().(*types.Array); isAr {
+						if b, isB := ar.Elem().Underlying().(*types.Basic); isB && b.Kind() == types.Uint8 {
+							if at := info.TypeOf(x.Args[0]); at != nil {
+								if sl, isSl := at.Underlying().(*types.Slice); isSl {
+									if eb, isEB := sl.Elem().Underlying().(*types.Basic); isEB && eb.Kind() == types.Uint8 {
+										return x.Args[0]
+									}
+								}
+							}
+						}
+					}
+				}
 			}
 		case *ast.SliceExpr:
 			return hashArg(fc, x.X, depth+1)
@@ -1480,32 +1497,41 @@ func c01R7(p *Prog, r *Report) {
 							r.Check(okLast, rule, construct, p.posStr(as.Pos()), "the user key's hash fills the last slot", fmt.Sprintf("the hash of %s is stored at slot %s, not at the last slot of the table: the last identity header does not name the user key", exprStr(arg), got))
 						}
 					case isBlockTable(tt):
-						// (b)
-						var call *ast.CallExpr
-						if len(as.Rhs) == 1 {
-							call, _ = ast.Unparen(as.Rhs[0]).(*ast.CallExpr)
+						// (b) the stored cipher is the result of a call (directly or through a local with
+						// a single definition) one of whose arguments is an element of a key table
+						var rhs ast.Expr
+						if len(as.Rhs) == len(as.Lhs) {
+							rhs = as.Rhs[i]
+						} else if len(as.Rhs) == 1 {
+							rhs = as.Rhs[0]
+						}
+						if rhs == nil {
+							continue
+						}
+						call, _ := ast.Unparen(rhs).(*ast.CallExpr)
+						if call == nil {
+							if o := objOf(info, rhs); o != nil {
+								if d, _, _, sole := fc.SoleDefRHS(o); sole {
+									call, _ = ast.Unparen(d).(*ast.CallExpr)
+								}
+							}
 						}
 						if call == nil {
 							continue
 						}
 						for _, a := range call.Args {
-							at := info.TypeOf(a)
-							if at == nil {
+							s := elemOf(fc, a, 0)
+							if !s.ok || s.baseExpr == nil {
 								continue
 							}
-							ax, isAx := ast.Unparen(a).(*ast.IndexExpr)
-							if !isAx {
-								continue
-							}
-							if bt := info.TypeOf(ax.X); bt == nil || !isKeyTable(bt) {
+							if bt := info.TypeOf(s.baseExpr); bt == nil || !isKeyTable(bt) {
 								continue
 							}
 							nB++
 							n++
 							d := linOf(p, fc, ix.Index)
-							s := linOf(p, fc, ax.Index)
-							r.Check(s.add(d, -1).isZero(), rule, fmt.Sprintf("%s:cipher-slot:%s", fc.Name, normExpr(p, fc, ax.X)), p.posStr(as.Pos()), "cipher k is derived from identity key k",
-								fmt.Sprintf("cipher table slot %s is derived from identity key %s: header k would be encrypted under another hop's key", d, s))
+							r.Check(s.idx.add(d, -1).isZero(), rule, fmt.Sprintf("%s:cipher-slot:%s", fc.Name, s.base), p.posStr(as.Pos()), "cipher k is derived from identity key k",
+								fmt.Sprintf("cipher table slot %s is derived from identity key %s: header k would be encrypted under another hop's key", d, s.idx))
 						}
 					}
 				}
